@@ -4,7 +4,7 @@
 
    Input  (fields separated by '|'):
      C <flush_rows> <flush_bytes> <max_bytes> <max_segment>
-     W <batch>;<batch>;...      one field per writer; batch = <schema>:<size>:<ipc_len>:<id>,<ts>,...
+     W <batch>;<batch>;...      one field per writer; batch = <schema>:<size>:<ipc_len>:<replayed_size>:<id>,<ts>,...
      S <label> ...              W<i>[a|b] | T[a|b] | R[a|b] | X | K | I (tick)
    Output:
      steps=<mode+buffer>,<chunks>,<flushed>,<wal segments>,<durable>/...
@@ -19,10 +19,11 @@ let parse_rows (s : string) : row list =
     | _ -> failwith "odd row list" in
   go (split_on ',' s)
 
-let parse_req (s : string) : batch * n =
+let parse_req (s : string) : wreq =
   match String.split_on_char ':' s with
-  | [sch; size; plen; rows] ->
-      ({ b_schema = n_of_string sch; b_rows = parse_rows rows; b_size = n_of_string size }, n_of_string plen)
+  | [sch; size; plen; rsize; rows] ->
+      { rq_b = { b_schema = n_of_string sch; b_rows = parse_rows rows; b_size = n_of_string size };
+        rq_len = n_of_string plen; rq_rsize = n_of_string rsize }
   | _ -> failwith ("bad batch: " ^ s)
 
 let parse_label (s : string) : dlabel =
